@@ -2,7 +2,7 @@
 #define VERIF_UTIL_H
 #include "rec.h"
 /* shard "k/N[,opt...]" */
-typedef struct { int k, n; int pure; char opts[128]; } shard_t;
+typedef struct { int k, n; int pure; char opts[400]; } shard_t;
 shard_t shard_parse(const char *extra);
 #define MINE(sh, x) (((x) % (sh).n) == (sh).k)
 int opt_has(const shard_t *s, const char *name);
@@ -19,4 +19,5 @@ void drv_rndz(mpz_ptr z, int limbs, int kind, int neg);
 char *hex_of_limbs(const mp_limb_t *p, mp_size_t n, int neg);   /* malloc'd */
 /* representative operand sizes around a threshold t */
 int sizes_around(int *out, int max, const int *thr, int nthr, int lo, int hi);
+const char *opt_val(const shard_t *s, const char *key);   /* ",key=value," -> value (static buffer) or NULL */
 #endif
